@@ -63,6 +63,7 @@ type recorder struct {
 	deferred map[int]bool
 	deleted  map[int]bool
 	faults   int
+	failed   bool         // a live object disagrees with storage: the rest of the run may not be executable
 	pending  func() error // re-issue of the operation that failed
 }
 
@@ -180,7 +181,11 @@ func (c *recorder) projections() (map[string]any, map[string]any, *absState, err
 			tr[t-1] = map[string]any{"st": "deleted", "hs": []int{}, "root": 0}
 		default:
 			live.Lock()
-			tr[t-1] = map[string]any{"st": "open", "hs": c.specIds(live.Heads()), "root": c.ids[live.Root().Id]}
+			root := 0
+			if r := live.Root(); r != nil {
+				root = c.ids[r.Id]
+			}
+			tr[t-1] = map[string]any{"st": "open", "hs": c.specIds(live.Heads()), "root": root}
 			live.Unlock()
 		}
 	}
@@ -333,8 +338,12 @@ func (c *recorder) execute(start map[string]any, do func() error, reissue func()
 	if kind == "delete" && opErr != nil {
 		failedDelete = start["t"].(int)
 	}
-	for _, v := range liveAgrees(c.r, c.w, cur, treeNo, c.deferred, c.deleted, failedDelete) {
+	disagree := liveAgrees(c.r, c.w, cur, treeNo, c.deferred, c.deleted, failedDelete)
+	for _, v := range disagree {
 		c.rep.Violate("LiveAgreesWithDisk:"+v[0]+":"+where, v[1], replay)
+	}
+	if len(disagree) > 0 {
+		c.failed = true
 	}
 	if d := c.r.observerAgrees(cur); d != "" {
 		c.rep.Violate("ObserverSawUncommitted:headstorage.UpdateEntry", "after "+where+": "+d, replay)
@@ -404,6 +413,9 @@ func (c *recorder) step() (bool, error) {
 		t := t
 		if c.nxt <= recMaxId {
 			cands = append(cands, func() error { return c.opLocal(t, c.rnd.Intn(3) == 0, false) }, func() error { return c.opLocal(t, false, false) })
+		}
+		if c.rnd.Intn(5) == 0 {
+			cands = append(cands, func() error { return c.opLocalRejected(t, c.rnd.Intn(2) == 0) })
 		}
 		if len(c.ofTree(t)) > 1 {
 			cands = append(cands, func() error { return c.opRemote(t, nil, false) }, func() error { return c.opRemote(t, nil, false) })
@@ -551,6 +563,18 @@ func (c *recorder) opLocal(t int, snap, retry bool) error {
 		}, func() error { return c.opLocal(t, snap, true) })
 }
 
+func (c *recorder) opLocalRejected(t int, snap bool) error {
+	tree := c.r.trees[c.w.roots[t].Id]
+	content := c.r.content("L", snap)
+	return c.execute(map[string]any{"kind": "localv", "t": t, "snap": snap, "set": []int{}, "i": 0, "retry": false, "id": 0},
+		func() error {
+			tree.Lock()
+			defer tree.Unlock()
+			_, err := tree.AddContentWithValidator(ctx, content, func(objecttree.StorageChange) error { return errRejected })
+			return err
+		}, nil)
+}
+
 func (c *recorder) opRemote(t int, set []int, retry bool) error {
 	tree := c.r.trees[c.w.roots[t].Id]
 	if set == nil {
@@ -646,8 +670,15 @@ func TestRecord(t *testing.T) {
 		c.ev(map[string]any{"ev": "reset"})
 		steps := 10 + rnd.Intn(14)
 		for s := 0; s < steps || c.pending != nil; s++ {
-			ok, err := c.step()
-			if err == errAbandon {
+			ok, err := func() (ok bool, err error) {
+				defer func() {
+					if r := recover(); r != nil {
+						err = fmt.Errorf("panic: %v", r)
+					}
+				}()
+				return c.step()
+			}()
+			if err == errAbandon || (err != nil && c.failed) {
 				break
 			}
 			if err != nil {
